@@ -536,7 +536,9 @@ def run_check(prop, tier, seed, replay):
                 st["cfg"] = dict(family=fam, nobj=c["nobj"], caps=c["caps"], ops=ops, menu=menu, variant=VARIANT,
                                  invariants=F["invs"])
                 spec_stats.append(st)
-                missing = [a for a in REQUIRED_ACTIONS.get(fam, []) if st.get("coverage", {}).get(a, [0])[0] == 0]
+                # reduced op sets (secondary configurations) are only required to exercise the collector
+                req = [a for a in REQUIRED_ACTIONS.get(fam, []) if a.startswith("Step") or "ops" not in c]
+                missing = [a for a in req if st.get("coverage", {}).get(a, [0])[0] == 0]
                 if missing and not st["cex"]:
                     raise ToolError("vacuous exhaustive run for family %s: actions never taken: %s" % (fam, missing))
                 log("spec: %s nobj=%d caps=%s: %d states generated, %d distinct, depth %s%s" % (
